@@ -36,6 +36,7 @@ type scenario struct {
 	resumed      bool // what Setup reports on the first connection
 	steps        []step
 	noSettle     bool // pipelined: do not wait between steps
+	closeOnRx    int  // Client.Close() is called from outside after the n-th packet was read, before it is handled
 }
 
 func (sc *scenario) text() string {
@@ -52,8 +53,8 @@ func (sc *scenario) text() string {
 			parts = append(parts, st.kind)
 		}
 	}
-	return fmt.Sprintf("%s/%s mode=%d w=%d fs=%v ff=%v fsess=%v fcall=%v [%s]", sc.family, sc.name, sc.mode, sc.w, sc.failSend, sc.failFrom,
-		sc.failSess, sc.failCall, strings.Join(parts, " "))
+	return fmt.Sprintf("%s/%s mode=%d w=%d fs=%v ff=%v fsess=%v fcall=%v cor=%d [%s]", sc.family, sc.name, sc.mode, sc.w, sc.failSend, sc.failFrom,
+		sc.failSess, sc.failCall, sc.closeOnRx, strings.Join(parts, " "))
 }
 
 type result struct {
@@ -133,6 +134,19 @@ func runScenario(sc *scenario) *result {
 			l.add("Watchdog")
 		}
 		res.peerGot = append(res.peerGot, conn.sentCopy())
+	}
+	if sc.closeOnRx > 0 {
+		b.onReceived = func(n int) {
+			if n == sc.closeOnRx {
+				done := make(chan struct{})
+				go func() { // another goroutine, as a takeover or shutdown would
+					l.add("CloseReq")
+					client.Close()
+					close(done)
+				}()
+				<-done
+			}
+		}
 	}
 	open()
 	idle := func() bool { return conn.consumed() && (len(b.queue) == 0 || conn.consumedClosed()) }
